@@ -27,6 +27,8 @@ struct Part {
     first: Vec<Value>,
     samples: Vec<Value>,
     by_dev: BTreeMap<String, u64>,
+    drift: u64,
+    drift_first: Vec<Value>,
 }
 
 impl Part {
@@ -34,6 +36,13 @@ impl Part {
         self.mism += 1;
         if self.first.len() < MAX_FIRST {
             self.first.push(v);
+        }
+    }
+    /// allowed by the statement, but not the specification's normal form: specification drift, not a violation
+    fn odd(&mut self, v: Value) {
+        self.drift += 1;
+        if self.drift_first.len() < 10 {
+            self.drift_first.push(v);
         }
     }
     fn sample(&mut self, v: Value, max: usize) {
@@ -119,6 +128,7 @@ struct Replay {
     time_of: Vec<String>, // TimePart string of every second of a day, from the TLC clock
     rng: Rng,
     every_second_days: Vec<Value>,
+    unreserved: Vec<u8>, // Percent!Unreserved, printed by TLC
 }
 
 impl Replay {
@@ -233,6 +243,8 @@ impl Replay {
         let a = v["a"].as_u64().unwrap() as u8;
         let pct = kind == "pct_enc_1_2_bytes";
         let e1 = ints(&v["e1"]);
+        let unres = self.unreserved.clone();
+        assert!(!pct || !unres.is_empty(), "the punres line must come first");
         let p = self.part(kind);
         let enc = |b: &[u8]| if pct { pct_encode(b) } else { b64_encode(b) };
         let dec = |t: &[u8]| if pct { pct_decode(t) } else { b64_decode(t) };
@@ -240,7 +252,22 @@ impl Replay {
             let got = enc(input);
             p.evals += 1;
             p.nontrivial += 1;
-            if got.as_deref().ok() != Some(exp) {
+            // Percent!EncAcceptable: not the normal form, but only unreserved characters and escapes, and it decodes to the input
+            // (judged with the real decoder, itself compared with Percent!Dec on every escape and text of this run)
+            let acceptable = pct && match &got {
+                Ok(g) if g[..] != exp[..] => {
+                    let mut i = 0;
+                    let mut shape = true;
+                    while i < g.len() { if g[i] == b'%' { i += 3; } else { shape &= unres.contains(&g[i]); i += 1; } }
+                    let back = pct_decode(g);
+                    shape && back.r == "ok" && back.v == input
+                }
+                _ => false,
+            };
+            if acceptable {
+                p.odd(json!({"what": "percent encoding is not the normal form of RFC 3986 (upper-case hex, unreserved unescaped) but an equivalent one", "in": input,
+                    "normal_form": show(exp), "got": got.as_ref().map(|g| show(g)).unwrap_or_default()}));
+            } else if got.as_deref().ok() != Some(exp) {
                 p.bad(json!({"what": format!("{} encode", if pct {"percent"} else {"base64"}), "in": input, "expected": show(exp), "got": format!("{:?}", got.map(|g| show(&g)))}));
             }
             // the decoder inverts the encoder (on the text TLC says is the encoding)
@@ -357,7 +384,7 @@ impl Replay {
 }
 
 fn replay() {
-    let mut r = Replay { parts: BTreeMap::new(), time_of: vec![], rng: Rng::from_env(), every_second_days: vec![] };
+    let mut r = Replay { parts: BTreeMap::new(), time_of: vec![], rng: Rng::from_env(), every_second_days: vec![], unreserved: vec![] };
     let mut lines = 0u64;
     for line in stdin_lines() {
         let v: Value = match serde_json::from_str(&line) { Ok(v) => v, Err(_) => continue };
@@ -373,13 +400,14 @@ fn replay() {
             "pdec" => r.dec_line(&v, "pct_dec_texts"),
             "pesc" => r.pesc(&v),
             "minute" => r.minute(&v),
+            "punres" => r.unreserved = ints(&v["set"]),
             "month" => r.month(&v),
             other => { eprintln!("unknown line kind {:?}", other); std::process::exit(2) }
         }
     }
     let parts: serde_json::Map<String, Value> = r.parts.iter().map(|(k, p)| (k.to_string(), json!({
         "evaluations": p.evals, "nontrivial": p.nontrivial, "mismatches": p.mism, "first": p.first,
-        "samples": p.samples, "by_dev": p.by_dev}))).collect();
+        "samples": p.samples, "by_dev": p.by_dev, "drift": p.drift, "drift_first": p.drift_first}))).collect();
     out_line(&json!({"summary": true, "lines": lines, "parts": parts, "every_second_days": r.every_second_days}));
 }
 
